@@ -3,6 +3,7 @@ import ast
 import itertools
 import math
 import random
+import sys
 import warnings
 from fractions import Fraction
 
@@ -55,6 +56,7 @@ NAMES2 = [None, None, ["x", "y"], ["a", "b"], ["y", "x"], ["u", "t"]]
 NAMES3 = [None, None, ["x", "y", "z"], ["a", "b", "c"], ["z", "x", "y"]]
 
 warnings.filterwarnings("ignore")
+sys.set_int_max_str_digits(0)  # exact model rationals of summed densities can exceed Python's default 4300-digit limit
 
 
 # ------------------------------------------------------------------ generators
